@@ -21,5 +21,6 @@ CONSTANTS
   ViaClasses = {"transaction"}
   CbFeeClasses = {"cf0"}
   AlgStride = 29
+  CbStride = 1
   ShapeStride = 1
 INVARIANTS TypeOK AlgSumIsValue AlgPermutation AlgAddSubRestores AlgSplitSums AlgCommitHom EmitAlg
